@@ -2,6 +2,7 @@ package main
 
 import (
 	"fmt"
+	"go/constant"
 	"go/token"
 	"go/types"
 	"sort"
@@ -137,13 +138,42 @@ func resolveRing(w *World) (*ringInfo, error) {
 	}
 	// the mark is the remaining integer field (stored with -1 when it expires)
 	ri.fOLD = -1
+	var cands []int
 	for fi := 0; fi < ri.St.NumFields(); fi++ {
 		if isInteger(ri.St.Field(fi).Type()) && fi != ri.fN && fi != ri.fCUR {
-			if ri.fOLD >= 0 {
-				return nil, fmt.Errorf("more than three integer fields in FrameLoop")
-			}
-			ri.fOLD = fi
+			cands = append(cands, fi)
 		}
+	}
+	if len(cands) > 1 {
+		// further integer state next to the mark (a cached index, a counter): the mark is the one that is given a
+		// negative constant when it expires
+		var neg []int
+		for _, fi := range cands {
+			isNeg := false
+			for _, m := range ri.methods {
+				for _, b := range m.Blocks {
+					for _, in := range b.Instrs {
+						if st, ok := in.(*ssa.Store); ok {
+							if fa, ok := st.Addr.(*ssa.FieldAddr); ok && fa.Field == fi && isPtrTo(fa.X.Type(), T) {
+								if k, ok := st.Val.(*ssa.Const); ok && k.Value != nil && k.Value.Kind() == constant.Int && constant.Sign(k.Value) < 0 {
+									isNeg = true
+								}
+							}
+						}
+					}
+				}
+			}
+			if isNeg {
+				neg = append(neg, fi)
+			}
+		}
+		if len(neg) != 1 {
+			return nil, fmt.Errorf("more than three integer fields in FrameLoop")
+		}
+		cands = neg
+	}
+	if len(cands) == 1 {
+		ri.fOLD = cands[0]
 	}
 	for fi := 0; fi < ri.St.NumFields(); fi++ {
 		if _, ok := ri.St.Field(fi).Type().Underlying().(*types.Slice); ok && fi != ri.fORD {
